@@ -440,6 +440,30 @@ def retried_facts(prog: Program, cr: ClientRoles) -> Tuple[Dict[str, Any], List[
     if not g_ok:
         problems.append(('STRATEGY-SELECT', 'retrying is not switched off by a None strategy', rn.line,
                          'the retry function must be applied only when a strategy is configured'))
+    # ... and whenever one is configured: nothing but the strategy decides whether the call is retried
+    all_guards = [(g.src.ast, g.label == 'T') for g in guard_edges(cfg, rn)]
+    for n in cfg.stmt_nodes():
+        if isinstance(n.ast, (ast.Assign, ast.Return)) and n.ast.value is not None:
+            for al in fl.alts(n, n.ast.value):
+                if al.expr is rc:
+                    all_guards += al.guards
+    extra = []
+    for c, pol in all_guards:
+        if isinstance(c, ast.Constant):
+            continue
+        k = classify_cond(prog, f, c)
+        if strat_var is not None and k.subject == strat_var and k.kind in ('truthy', 'is-none'):
+            continue
+        if k.kind == 'is-unset' and k.subject in pnames:
+            continue
+        t = ('' if pol else 'not ') + norm(c)
+        if t not in extra:
+            extra.append(t)
+    facts['extra_retry_conditions'] = extra
+    if extra:
+        problems.append(('STRATEGY-SELECT', 'retrying additionally depends on ' + '; '.join(extra)[:60], rn.line,
+                         f'the retry function is applied only when {extra} besides a configured strategy: a request for which that does not hold '
+                         f'(e.g. a notification) is sent once and a listed exception reaches the caller without any retry'))
     return facts, problems
 
 
